@@ -15,6 +15,16 @@ k*181 mod 196; the 96 information bits fill rows 1..9, columns 1..11 row by row 
 Hamming(15,11,3), columns Hamming(13,9,3) words = multiples of x^4+x+1 (mc/oracle/gf2.py, integer
 polynomial division; C06 establishes that this is the ETSI code).  The product code has minimum
 distance 3*3 = 9, so every pattern of <= 2 (indeed <= 4) errors has a unique nearest codeword.
+
+Scope decisions (ask what the statement says, no more):
+  * an encoder output that is a valid product codeword with the right information bits but non-zero reserved
+    bits would be recorded as an outcome, not as a violation (the statement does not speak about R(0..3));
+  * repair_if_necessary(bits, deinterleaved=True) is not exercised: nothing calls it, the statement names the
+    transmitted codeword, and that path reads and writes two different bit orders (reported, not judged);
+  * buffers: only "the caller's error-free codeword is not modified" is required (C19 owns purity in general).
+Signatures: misdecodes are split single / double:same_column / double:other; the same-column failing set of
+the pinned tree (616 pairs, identical for every base word) is pinned by digest, any other non-empty set gets
+its own signature, so a new failure cannot hide behind the known one.
 """
 from mc import env  # noqa: F401
 from mc import par, spaces
@@ -137,7 +147,7 @@ def base_words(rep):
     fixed = ["0" * K, "1" * K]
     if rep.thorough():
         fixed += [spaces.unit(K, i) for i in range(K)]
-    nseed = 8 if rep.thorough() else 2
+    nseed = 4 if rep.thorough() else 1
     out = list(fixed)
     i = 0
     while len(out) < len(fixed) + nseed:  # seed-chosen *additional* background words
@@ -263,7 +273,7 @@ def w_faults(task):
             fails.append((idx, "exception"))
             acc.violation("exception_decode:" + exc_sig(e), case, repr(e))
         acc.case(nontrivial=cls not in ("none", "r3_only"), calls=1, outcome=(cls, ok),
-                 sample=case if (idx == lo and lo % 7 == 0) else None)
+                 sample=case if idx == lo + 1 else None)
     return acc, bi, fails
 
 
